@@ -21,6 +21,7 @@ The full truncation statement is FALSE for xyz (and stays false for any sensible
 -/
 import Molli.Lemmas.Complete
 import Molli.Lemmas.Mol2Truncation
+import Molli.Lemmas.Mol2TruncationBytes
 import Molli.Lemmas.XyzTruncation
 import Molli.Gen.Mol2Types
 import Molli.Props.C07
@@ -77,6 +78,23 @@ theorem truncation_prefix (k : Kind) (ms : List MolV)
         .ok ((ms.take j).map (Molli.Lemmas.Mol2Values.normMol table bonds k))) ∨
     (∃ e, loadsAll table bonds k none (joinLines ((ms.flatMap (writeLines table bonds k)).take n)) = .error e) :=
   Molli.Lemmas.Mol2Truncation.loadsAll_take_lines table bonds Molli.Props.C07.tablesOk k ms hm n
+
+/-- `truncation_last_record` (mol2): "all byte offsets of the last record": the text of admissible molecules
+`ms ++ [m]` written by molli and cut INSIDE its last line (all lines but the last, then a proper prefix `p` of
+the last line `l`) is rejected or gives exactly the first `j` molecules of the undamaged text — the last record
+is a bond line whose final type token has no acceptable proper prefix (generated obligation
+`bond_token_prefix_free`), or the line `@<TRIPOS>BOND`. -/
+theorem truncation_last_record (k : Kind) (ms : List MolV) (m : MolV)
+    (hm : ∀ x ∈ ms ++ [m], Molli.Lemmas.Mol2RoundTrip.Admissible table bonds x)
+    (l : Str) (hl : (Molli.Lemmas.Mol2TruncationBytes.allLines table bonds k (ms ++ [m])).getLast? = some l)
+    (p : Str) (hp : p <+: l) (hne : p ≠ l) :
+    (∃ j, j ≤ (ms ++ [m]).length ∧
+      loadsAll table bonds k none
+        (joinLines ((Molli.Lemmas.Mol2TruncationBytes.allLines table bonds k (ms ++ [m])).dropLast) ++ p) =
+        .ok (((ms ++ [m]).take j).map (Molli.Lemmas.Mol2Values.normMol table bonds k))) ∨
+    (∃ e, loadsAll table bonds k none
+        (joinLines ((Molli.Lemmas.Mol2TruncationBytes.allLines table bonds k (ms ++ [m])).dropLast) ++ p) = .error e) :=
+  Molli.Lemmas.Mol2TruncationBytes.loadsAll_cut_last table bonds Molli.Props.C07.tablesOk k ms m hm l hl p hp hne
 
 /-- non-vacuity of the hypotheses on arbitrary texts: a two-molecule text whose second molecule lost its
 BOND section is rejected (the unrepaired reader returned it with the first molecule's bonds, D21) -/
